@@ -183,6 +183,7 @@ class Sim:
         self.running = False
         self.step_hooks: list[Callable[[], None]] = []
         self.atomic_depth = 0
+        self._stamp = 0
         self.capped = False
         self.max_lines = max_steps * 50
         self.nforced = 0
@@ -197,6 +198,11 @@ class Sim:
         self.digest.update(b"\n")
         if len(self.log) < 20000:
             self.log.append(ev)
+
+    def stamp(self) -> int:
+        """Strictly increasing time stamp for invoke/return events of recorded histories."""
+        self._stamp += 1
+        return self._stamp
 
     def hexdigest(self) -> str:
         return self.digest.hexdigest()
@@ -492,7 +498,8 @@ class Sim:
                     break
                 self.digest.update(("r:%s\n" % tgt.name).encode()) if key_used else None
                 tgt.sem.release()
-                self._main_sem.acquire()
+                if not self._main_sem.acquire(timeout=60):
+                    raise HarnessError("task %s did not yield within 60 s of real time (stuck on a real lock?)" % tgt.name)
                 for h in self.step_hooks:
                     h()
         finally:
